@@ -46,7 +46,14 @@ def runH (rest impl : String) : Ans :=
   | some ae, some ce, some cl, some prod, some rules =>
     let i : HIn := { ae := ae, ce := ce, hasCL := cl == 1, rules := if prod == 1 then some rules else none }
     let o := handler i
-    let m := "enc=" ++ encName o.enc ++ ";ce=" ++ hexField o.ce ++ ";cl=" ++ (if o.hasCL then "1" else "0")
+    -- optional response / request attributes the handler does not look at (status, method, Content-Range,
+    -- ETag, Vary, a second Accept-Encoding line): the model echoes ETag / Vary unchanged
+    let ext := (look kv "st").isSome
+    let stt := (lookNat kv "st").getD 200
+    let mth := (look kv "mth").getD "G"
+    let cr := (lookNat kv "cr").getD 0
+    let m := "enc=" ++ encName o.enc ++ ";ce=" ++ hexField o.ce ++ ";cl=" ++ (if o.hasCL then "1" else "0") ++
+      (if ext then ";et=" ++ (look kv "et").getD "0" ++ ";vy=" ++ (look kv "vy").getD "-" else "")
     -- oracle on the implementation's answer
     let ikv := parseKV impl
     let ienc := (look ikv "enc").getD "?"
@@ -59,12 +66,17 @@ def runH (rest impl : String) : Ans :=
         let tok := if ienc == "gzip" then sGzip else sBr
         if ice != some tok then "FAIL:wrong-content-encoding"
         else if icl != some 0 then "FAIL:stale-content-length"
+        else if ext && (look ikv "et") != (look kv "et") then "FAIL:etag-changed"
+        else if ext && (stt == 204 || stt == 304 || stt < 200 || mth == "H") then "FAIL:bodiless-response-compressed"
+        else if ext && (cr == 1 || stt == 206) then "FAIL:partial-content-compressed"
         else if rfcAccepts ae tok then "ok"
         else if rfcListed ae tok then "FAIL:q0-accepted"
         else if hasToken ae tok then "FAIL:malformed-element-accepted"   -- the word occurs, but not as a list element
         else "FAIL:coding-not-in-header"
       else "FAIL:unparsable"
     let tags := ["h"] ++ (if o.enc.isSome then ["nt", "h-enc"] else ["h-none"]) ++
+      (if ext then ["h-ext"] else []) ++ (if (look kv "ae2").getD "-" != "-" then ["h-ae2"] else []) ++
+      (if ext && o.enc.isSome && (look kv "vy").getD "-" == "-" then ["h-no-vary"] else []) ++
       (if ae.any (· == 59) then ["ae-params"] else []) ++
       (if hasToken ae sGzip != rfcAccepts ae sGzip || hasToken ae sBr != rfcAccepts ae sBr then ["tok-vs-rfc-differ"] else [])
     { model := m, verdict := verdict, tags := tags }
@@ -117,9 +129,29 @@ def simReads (cp : Comp (List Nat)) (fs : Nat) (ps : List Nat) : Nat → Nat →
       let q := simReads cp fs ps k (i + 1) r.2
       (rec_ :: q.1, q.2)
 
+/-- pass 2 over a possibly failing source: (records, eof reached, error reached).  The buffer level
+    reported for the failing Read is the implementation's (what a compressor emits at a Write without
+    flush is not modelled). -/
+def simReadsX (cp : Comp (List Nat)) (fs : Nat) (ps : List Nat) (failing : Bool) (lastBuf : Nat) :
+    Nat → Nat → FSt → List RRec × Bool × Bool
+  | 0, _, _ => ([], false, false)
+  | k + 1, i, st =>
+    let before := st.trace.length
+    let r := freadX cp fs failing st (cyc ps i)
+    let ws := (r.2.trace.drop before).filterMap fun o => match o with | .w b => some b.length | _ => none
+    let isErr := r.1.2 == RRes.err
+    let rec_ : RRec := { n := r.1.1.length,
+                         buf := if isErr then lastBuf else (cp.emit r.2.trace).length - r.2.consumed,
+                         closed := if r.2.closed then 1 else 0, ws := ws }
+    if isErr then ([rec_], false, true)
+    else if r.1.2 == RRes.eof then ([rec_], true, false)
+    else
+      let q := simReadsX cp fs ps failing lastBuf k (i + 1) r.2
+      (rec_ :: q.1, q.2.1, q.2.2)
+
 /-- the filter part shared by `f` and `r` ops: model string, verdict, tags -/
-def filterPart (fs : Nat) (chunks ps : List Nat) (mx : Nat) (ikv : List (String × String)) :
-    Option (String × String × List String) :=
+def filterPart (fs : Nat) (chunks ps : List Nat) (mx : Nat) (ikv : List (String × String))
+    (failing : Bool := false) : Option (String × String × List String) :=
   match (look ikv "r").bind (fun s => if s == "-" then some [] else (s.splitOn ",").mapM parseRec), lookNat ikv "eof", look ikv "dec" with
   | some recs, some ieof, some idec =>
     let src : List Bytes := chunks.map fun n => List.replicate n 0
@@ -131,12 +163,19 @@ def filterPart (fs : Nat) (chunks ps : List Nat) (mx : Nat) (ikv : List (String 
     let q := ((es.zip has).filter (·.2)).map (·.1)
     let stray := (es.zip has).any fun x => !x.2 && x.1 != 0
     let cp : Comp (List Nat) := { lenComp with init := q }
-    let sim := simReads cp fs ps k 0 st0
+    let sim := simReadsX cp fs ps failing ((recs.getLast?.map (·.buf)).getD 0) k 0 st0
+    let stray := stray && !sim.2.2
     let m := "r=" ++ (if sim.1.isEmpty then "-" else ",".intercalate (sim.1.map showRec)) ++ ";eof=" ++
-      (if sim.2 then "1" else "0") ++ ";dec=" ++ (if sim.2 then "ok" else "na")
+      (if sim.2.1 then "1" else "0") ++ ";dec=" ++ (if sim.2.2 then "readerr" else if sim.2.1 then "ok" else "na") ++
+      (if (look ikv "close").isSome then ";close=1" else "")
     let m := if stray then "emission-without-compressor-call" else m
+    let sim : List RRec × Bool := (sim.1, sim.2.1)
     let verdict :=
-      if ieof == 1 then (if idec == "ok" then "ok" else "FAIL:corrupt-body-" ++ idec)
+      if (look ikv "close").isSome && look ikv "close" != some "1" then "FAIL:source-not-closed"
+      else if failing then
+        (if ieof == 1 then "FAIL:source-error-swallowed"
+         else if idec == "readerr" || k ≥ mx then "ok" else "FAIL:reader-stopped-" ++ idec)
+      else if ieof == 1 then (if idec == "ok" then "ok" else "FAIL:corrupt-body-" ++ idec)
       else if k < mx then "FAIL:reader-stopped-" ++ idec else "ok"
     let nflush := (has.filter id).length
     let tags := (if sim.2 && nflush ≥ 3 then ["nt", "f-multiflush"] else []) ++
@@ -144,7 +183,7 @@ def filterPart (fs : Nat) (chunks ps : List Nat) (mx : Nat) (ikv : List (String 
       (if chunks.any (· == 0) then ["f-emptychunk"] else []) ++
       (if chunks.foldl (· + ·) 0 == 0 then ["f-emptybody"] else []) ++
       (if chunks.any (· > fs) then ["f-chunk>fs"] else []) ++
-      (if ps.any (· == 1) then ["f-p1"] else [])
+      (if ps.any (· == 1) then ["f-p1"] else []) ++ (if failing then ["f-srcerr"] else [])
     some (m, verdict, tags)
   | _, _, _ => none
 
@@ -152,7 +191,7 @@ def runF (rest impl : String) : Ans :=
   let kv := parseKV rest
   match lookNat kv "fs", (look kv "chunks").bind (natList ","), (look kv "reads").bind (natList ","), lookNat kv "max" with
   | some fs, some chunks, some ps, some mx =>
-    match filterPart fs chunks ps mx (parseKV impl) with
+    match filterPart fs chunks ps mx (parseKV impl) ((look kv "fail") == some "1") with
     | some (m, v, tags) => { model := m, verdict := v, tags := ["f"] ++ tags }
     | none => { model := "unparsable-impl", verdict := "ok" }
   | _, _, _, _ => { model := "bad-op", verdict := "skip" }
@@ -172,36 +211,52 @@ def runR (rest impl : String) : Ans :=
     let cmd : Option Cmd := if cmds == "G" then some .gzip else if cmds == "B" then some .brotli
       else if cmds == "m" then none else some .other
     let ld := actionFileCheck cmd q fs
-    let lds := match ld with | .ok => "ok" | .err => "err" | .panic => "panic"
+    let ldStr := fun (l : Load) => match l with | .ok => "ok" | .err => "err" | .panic => "panic"
+    -- optional second rule file offered to the same module (reload)
+    let has2 := (look kv "cmd2").isSome
+    let cmds2 := (look kv "cmd2").getD "m"
+    let cmd2 : Option Cmd := if cmds2 == "G" then some .gzip else if cmds2 == "B" then some .brotli
+      else if cmds2 == "m" then none else some .other
+    let q2 := ((look kv "q2").bind optInt).getD none
+    let fs2 := ((look kv "fs2").bind optInt).getD none
+    let ld2 := actionFileCheck cmd2 q2 fs2
+    let lds := ldStr ld ++ (if has2 then "/" ++ ldStr ld2 else "")
+    let natOf := fun (x : Option Int) => match x with | some f => f.toNat | none => 0
+    let inForce := actionInForce (some (ld, cmd.getD .other, natOf fs))
+      (if has2 then some (ld2, cmd2.getD .other, natOf fs2) else none)
     let ikv := parseKV impl
     let ild := (look ikv "load").getD "?"
     let ienc := (look ikv "enc").getD "?"
     let iraw := (look ikv "raw").getD "?"
+    let failing := (look kv "fail") == some "1"
     -- oracle (on the implementation's answer only)
     let bodyVerdict : String :=
-      if ienc == "none" then (if iraw == "ok" || (ild != "ok" && iraw == "na") then "ok" else "FAIL:passthrough-body-changed")
+      if ienc == "none" then (if iraw == "ok" || (!has2 && ild != "ok" && iraw == "na") then "ok" else "FAIL:passthrough-body-changed")
       else if ienc == "gzip" || ienc == "br" then
         match lookNat ikv "eof", look ikv "dec" with
-        | some 1, some d => if d == "ok" then "ok" else "FAIL:rulefile-corrupt-body-" ++ d
-        | some _, some d => if (((look ikv "r").getD "").splitOn ",").length < mx then "FAIL:reader-stopped-" ++ d else "ok"
+        | some 1, some d => if failing then "FAIL:source-error-swallowed" else if d == "ok" then "ok" else "FAIL:rulefile-corrupt-body-" ++ d
+        | some _, some d =>
+          if d == "readerr" && failing then "ok"
+          else if (((look ikv "r").getD "").splitOn ",").length < mx then "FAIL:reader-stopped-" ++ d else "ok"
         | _, _ => "FAIL:unparsable"
       else "FAIL:unparsable"
-    let btags := ["r", "load-" ++ lds] ++
-      (match fs with | some f => (if f == 0 then ["fs0"] else if f < 64 then ["fs<64"] else if f > 4096 then ["fs>4096"]
+    let fsE := if has2 && ld2 == .ok then fs2 else fs
+    let btags := ["r", "load-" ++ ldStr ld] ++ (if has2 then ["r-reload", "reload-" ++ ldStr ld2] else []) ++
+      (match fsE with | some f => (if f == 0 then ["fs0"] else if f < 64 then ["fs<64"] else if f > 4096 then ["fs>4096"]
                                   else if f == 64 || f == 4096 then ["fs-edge"] else []) | none => ["fs-missing"])
-    match ld with
-    | .ok =>
-      let o := handler { ae := ae, ce := [], hasCL := true, rules := some [{ hit := true, cmd := cmd.getD .other }] }
+    match inForce with
+    | some (c, f) =>
+      let o := handler { ae := ae, ce := [], hasCL := true, rules := some [{ hit := true, cmd := c }] }
       match o.enc with
-      | none => { model := "load=ok;enc=none;raw=ok", verdict := bodyVerdict, tags := btags ++ ["r-none"] }
+      | none => { model := "load=" ++ lds ++ ";enc=none;raw=ok", verdict := bodyVerdict, tags := btags ++ ["r-none"] }
       | some e =>
-        let f := (match fs with | some f => f.toNat | none => 0)
-        match filterPart f chunks ps mx ikv with
+        match filterPart f chunks ps mx ikv failing with
         | some (m, _, tags) =>
-          { model := "load=ok;enc=" ++ encName (some e) ++ ";raw=na;" ++ m, verdict := bodyVerdict,
+          { model := "load=" ++ lds ++ ";enc=" ++ encName (some e) ++ ";raw=na;" ++ m, verdict := bodyVerdict,
             tags := btags ++ ["r-enc"] ++ tags }
-        | none => { model := "load=ok;enc=" ++ encName (some e) ++ ";raw=na;<no filter record>", verdict := bodyVerdict, tags := btags }
-    | _ => { model := "load=" ++ lds ++ ";enc=none;raw=na", verdict := bodyVerdict, tags := btags }
+        | none => { model := "load=" ++ lds ++ ";enc=" ++ encName (some e) ++ ";raw=na;<no filter record>", verdict := bodyVerdict, tags := btags }
+    | none =>
+      { model := "load=" ++ lds ++ ";enc=none;raw=" ++ (if has2 then "ok" else "na"), verdict := bodyVerdict, tags := btags }
   | _, _, _, _, _, _, _ => { model := "bad-op", verdict := "skip" }
 
 def run (op impl : String) : Ans :=
